@@ -817,7 +817,9 @@ def run_X(case):
         exact = sum(w * np.array(vv[k]) for w, vv in zip(ws, vals)) / sum(ws)
         span = max(max(abs(x) for x in vv[k]) for vv in vals)
         ok &= bool(np.all(np.abs(np.asarray(out[k], np.float64) - exact) <= 2.0 * span + 1e-6))
-        ok &= bool(np.all(np.sign(np.asarray(out[k], np.float64)) * np.sign(exact) >= 0)) if case['agg'] != 'drive' else True
+        if k == 'a' and case['agg'] != 'tern':
+          # a size-1 leaf is constant: uniform, rotated uniform and DRIVE keep it exactly, so this key must carry ITS mean
+          ok &= bool(np.all(np.abs(np.asarray(out[k], np.float64) - exact) <= 1e-4 * span))
       return ok
     guard('per-key-association', per_key_mean)
     def sorted_same():
